@@ -99,6 +99,9 @@ fixed("C05-relational-string-compare", "C05", "3963137",
 fixed("C06-mod-on-ints", "C06", "c9ac843",
       "mod was computed on int-truncated operands and failed with 'integer divide by zero' for |divisor| < 1",
       expect("<r/>", "5 mod 2.5", num("0")))
+fixed("C06-number-literal-out-of-range", "C06", "b040b74",
+      "a number literal beyond the double range (310 digits) made Exec fail with a strconv range error instead of evaluating to Infinity",
+      expect("<r/>", "1" + "0" * 320 + " > 1", bl(True)))
 fixed("C06-div-negative-zero", "C06", "af77ef5", "1 div -0 was +Infinity",
       expect("<r/>", "1 div -0", num("-Inf")))
 fixed("C06-sum-truncates", "C06", "da29453", "sum() truncated every term to an integer",
